@@ -54,7 +54,7 @@ def attempts_obs(obs, helper):
                           (rec is None or h["t"] < rec["t"]) for h in a.get("hooks", []))
         out.append({"start_ms": a["start"] // 10 ** 6, "end_ms": (rec["t"] if rec else a["start"]) // 10 ** 6,
                     "post_op_count": len(posts), "reported_success": args.get("is_success") == "true",
-                    "hook_failed": hook_failed,
+                    "hook_failed": hook_failed, "status_text_present": bool((args.get("status") or "").strip()),
                     "installed": installed, "status": args.get("status"),
                     "next_start_ms": (a["next_start"] // 10 ** 6) if a["next_start"] is not None else None})
     return out
@@ -118,7 +118,7 @@ def part_single(ctx, helper, root):
         ctx.count("single:attempts", len(ended))
         ctx.count("single:failed-attempts", sum(1 for a in ended if not a["reported_success"]))
         robj = {"sc": {k: v2 for k, v2 in sc.items() if k != "answer"}, "attempts": ended, "rc": obs["rc"]}
-        if obs["rc"] is not None:
+        if not vlib.model([{"op": "c07_run", "process_alive": obs["rc"] is None, "healthy_issued": []}])[0]["holds"]:
             ctx.violation("the daemon process ended (status %s) after fault %s at %s: %s" % (
                 obs["rc"], sc["fault"], flowgrid.pos_name(sc["pos"]), obs["stderr"][-300:]), robj)
             continue
@@ -203,10 +203,13 @@ def part_multi(ctx, helper, root):
         ctx.count("multi:certs:%d" % sc["k"])
         ctx.count("multi:failing:%d" % len(sc["failing"]))
         robj = {"sc": sc, "posts": r["posts"][:40], "rc": r["rc"], "stderr": r["stderr"]}
+        issued = set(p.get("certificate_path") for p in r["posts"] if p.get("is_success") == "true")
+        healthy = [any(("good%d" % c) in (x or "") for x in issued) for c in range(sc["k"]) if c not in sc["failing"]]
+        rv = vlib.model([{"op": "c07_run", "process_alive": r["rc"] is None, "healthy_issued": healthy}])[0]
         if r["rc"] is not None:
             ctx.violation("the daemon process ended (status %s) while %d of %d certificates kept failing" % (
                 r["rc"], len(sc["failing"]), sc["k"]), robj)
-        elif not r["good_done"]:
+        elif not rv["holds"] or not r["good_done"]:
             ctx.violation("certificates sharing account and endpoint with %d permanently failing ones (%s) were "
                           "not issued within 60 s" % (len(sc["failing"]), sc["how"]), robj)
         fails = [p for p in r["posts"] if p.get("is_success") == "false"]
